@@ -75,7 +75,7 @@ def check_identity(chk, F, R):
     chk.rule(R, "whole descriptors (every output type, near-twins differing in one key / threshold / arity / key order / lock "
                 "/ tree shape / internal key): a == b exactly when their texts are identical; cmp is Equal exactly then, "
                 "antisymmetric and transitive on the family; clone() == original; equal descriptors feed the same bytes "
-                "to a Hasher and distinct ones of the family feed different streams")
+                "to a Hasher")
     H = Harness(F)
     texts = family(chk.tier)
     try:
@@ -128,9 +128,8 @@ def check_identity(chk, F, R):
             if repr(r1.items) != repr(r2.items) or not r1.items:
                 bad["hash"].append("%s and its clone feed different / empty streams to the hasher" % t)
             streams.setdefault(repr(r1.items), []).append(t)
-        for k, ts in streams.items():
-            if len(ts) > 1:
-                bad["hash"].append("distinct descriptors feed identical streams to the hasher: %s" % ts[:3])
+        # (distinct descriptors may legitimately collide: only `equal => same stream` is the Hash contract)
+        chk.extra[R + "_distinct_hash_streams"] = len(streams)
     except Unsupported as e:
         chk.fail(R, "unanalysable", "unanalysable: %s" % e, where=e.where, kind="unanalysable")
         return
